@@ -3,7 +3,7 @@ C02 — SuggestTrials hands out exactly the requested trials, sticky per worker,
 Property theorems only.  `suggestBody` is `SuggestTrials` after the study checks, under the
 operation lock; the algorithm's answer is an arbitrary parameter of each theorem.
 -/
-import VizierModel.Lemmas.ServiceEs
+import VizierModel.Lemmas.ServiceOpNums
 
 namespace VizierModel.C02
 open VizierModel.Svc
@@ -89,6 +89,13 @@ theorem c02_fresh_ids (cfg : Cfg) (h : List Req) (r : Req) :
     ∀ st ∈ (run cfg DB.empty h).studies, ∀ st' ∈ (step cfg (run cfg DB.empty h) r).2.studies, keyOf st = keyOf st' →
       freshIdsOK st.trials st'.trials = true :=
   fun st hst st' hst' hk => ((step_ok cfg _ r (run_inv cfg DB.empty h inv_empty)).2 st hst st' hst' hk).fresh
+
+/-- operation numbering: after every history the suggestion operations of every (study, worker)
+    are numbered 1, 2, …, k in creation order (operation records being deleted with their study) -/
+theorem c02_op_numbering (cfg : Cfg) (hc : cfg.deleteCascadesOps = true) (h : List Req) :
+    ∀ st ∈ (run cfg DB.empty h).studies, ∀ w : String,
+      (opsOf st w).map (·.num) = List.range' 1 (opsOf st w).length :=
+  run_opsNumbered cfg hc DB.empty h (by intro st hst; cases hst)
 
 /-! non-vacuity: an over-delivering algorithm, two workers -/
 example :
